@@ -82,6 +82,19 @@ def run_case(spec):
     drv.actions = actions
     drv.drain_actions = lambda: actions(True)
     sch = Scheduler(world, drv, strategy=rng.choice(["random", "pct", "appfirst", "netfirst"]), chunking="whole")
+    bad_name = {"tried": 0, "outcome": None}
+    if spec["cuts"] and spec["seed"] % 3 == 0:
+        # an application bug: a subprotocol name that is a str but cannot be encoded (a lone surrogate, as
+        # os.fsdecode() produces for undecodable bytes). It must be refused; it must not harm anything else.
+        def try_bad_name():
+            bad_name["tried"] = 1
+            side = rng.choice("AB")
+            try:
+                d = dp.dilate(side).connector_for("caf\udce9").connect(RecFactory(dp, "%s.open[bad]" % side))
+                d.addCallbacks(lambda p: bad_name.__setitem__("outcome", "connected"), lambda f: bad_name.__setitem__("outcome", f.type.__name__))
+            except Exception as e:
+                bad_name["outcome"] = type(e).__name__
+        sch.faults.append((rng.randint(30, 200), try_bad_name, "connect with an unencodable name"))
     if spec["cuts"]:
         for _ in range(rng.randint(1, 2)):
             def cut():
@@ -218,6 +231,8 @@ def run_case(spec):
                 xk = [e[0] for e in x.events]
                 if not isinstance(x, HalfRecProto) and not isinstance(y, HalfRecProto) and "lost" not in xk:
                     viol.append({"key": "C13/closer-never-gets-connectionLost", "msg": "%s closed, saw %s" % (x.name, xk[-3:]), "witness": wit()})
+    if bad_name["tried"] and bad_name["outcome"] in (None, "connected"):
+        viol.append({"key": "C13/unencodable-subprotocol-name-not-refused/" + str(bad_name["outcome"]), "msg": "connector_for('caf\\udce9').connect(): %s" % bad_name["outcome"], "witness": wit()})
     for (name_, err) in drv.late_write_results:
         if err is None:
             viol.append({"key": "C13/write-after-close-accepted", "msg": "%s: write() from inside connectionLost did not raise" % name_, "witness": wit()})
@@ -240,7 +255,7 @@ def run_case(spec):
     nontrivial = trace_digest(sch) if (nsub and closes) else None
     benign = {"CloseForMissingSubchannelError", "DataForMissingSubchannelError"}
     return {"violations": viol, "nontrivial": nontrivial,
-            "counters": {"subchannels": nsub, "closes": closes, "writes_after_close": writes_after_close, "writes_right_after_close": len(early_wac), "calls_from_inside_protocol_callbacks": drv.reactions_done, "false_factories": drv.falsy_factories, "undeclared_opens": undeclared,
+            "counters": {"subchannels": nsub, "closes": closes, "writes_after_close": writes_after_close, "writes_right_after_close": len(early_wac), "unencodable_names_tried": bad_name["tried"], "calls_from_inside_protocol_callbacks": drv.reactions_done, "false_factories": drv.falsy_factories, "undeclared_opens": undeclared,
                          "late_listens": late_listens, "half_protocols": sum(isinstance(p, HalfRecProto) for p in all_protos),
                          "opens": len(drv.opens), "notrans_seen": len(MON.notrans)},
             "sets": {"write_after_close_errors": sorted({e for (_, e, _) in wac_errors if e} | {e[1] for e in early_wac if e[1]}),
